@@ -48,6 +48,21 @@ def Op.plain : Op → Bool
   | .btext .. | .berase .. | .bskip .. | .bchar .. | .bhline .. | .bclear _ => false
   | _ => true
 
+/-- The pen operations with reference traffic inside the library: change events (whose handlers take and drop
+    references to pens), `freeze`/`thaw`, the source kept alive by `tickit_pen_copy`. -/
+def Op.penEvent : Op → Bool
+  | .pset .. | .pdesc .. | .pcopy .. | .pcopyattr .. | .pbind .. | .punbind .. => true
+  | _ => false
+
+/-- What a handler may do without freeing anything: every action except `tickit_window_unref`. -/
+def Act.keeps : Act → Bool
+  | .unref _ => false
+  | _ => true
+
+/-- Every handler bound in this state frees nothing. -/
+def KeepingHandlers (st : St) : Prop :=
+  ∀ (i : Nat) (b : Bind), b ∈ (getX st i).binds → ∀ a ∈ b.acts, a.keeps = true
+
 /-! ## observation text (must equal what harness/life.c prints) -/
 
 def showIds (l : List Id) : String := ",".intercalate (l.map toString)
@@ -96,6 +111,13 @@ def rbUpd (st : St) (k : Nat) (f : RBObj → Out RBObj) : Out (St × String) :=
   else do
     let b ← f (st.rbs[k]?.getD {})
     pure ({ st with rbs := st.rbs.setIfInBounds k b }, "ok")
+
+/-- `tickit_mockterm_get_display_text(buffer of exactly len bytes, len, …)` over the cells it walks. -/
+def mdispResult (st : St) (len : Int) (cells : List (List UInt8)) : Out (St × String) :=
+  let c := displayText (len ≥ 0) len.toNat cells
+  match showBuffer len c with
+  | none => .ub .mem "tickit_mockterm_get_display_text: store beyond the caller's buffer"
+  | some s => pure (st, s!"ret={c.ret} buf={s}")
 
 /-- Drop every reference the application still holds (the harness's `drop_all`): windows from the highest
     handle to the root, then pens, strings, buffers, the terminal last. -/
@@ -244,7 +266,9 @@ def step (cfg : Cfg) (st : St) : Op → Out (St × String)
   | .btext k line col bytes =>
     if !heldB st k then skipR st
     else match splitChars bytes with
-      | none => pure (st, "unsupported-text")
+      | none =>
+        -- `put_text`: the string is created, `put_string` returns -1 before drawing, the string is released
+        if rejectedText bytes then pure (st, "ret=-1") else pure (st, "unsupported-text")
       | some chars => do
         let cols : Int := chars.length
         let b ← putSpan (st.rbs[k]?.getD {}) line col cols
@@ -309,11 +333,7 @@ def step (cfg : Cfg) (st : St) : Op → Out (St × String)
               | some s => pure (st, s!"active=1 cols={ncols} infolen={c.ret} ret={ulen} buf={s}")
   | .mdisp len _line _col width =>
     if !heldT st then skipR st
-    else
-      let c := displayText (len ≥ 0) len.toNat (List.replicate width.toNat [0x20])
-      match showBuffer len c with
-      | none => .ub .mem "tickit_mockterm_get_display_text: store beyond the caller's buffer"
-      | some s => pure (st, s!"ret={c.ret} buf={s}")
+    else mdispResult st len (List.replicate width.toNat [0x20])     -- a screen nothing was printed on
   | .«end» => do
     let st ← dropAll cfg st
     pure (st, "end")
